@@ -141,4 +141,33 @@ var c11Benign = []core.Mutant{
 	{Name: "groupby-emit-helper-closure", File: c11fCompute,
 		Find:    "\tvar result []childLocs\n\n\tfor len(locs) > 0 {\n\t\tp := locs[0].Parent\n\t\tend := 0\n\n\t\tfor end < len(locs) && locs[end].Parent == p {\n\t\t\tend++\n\t\t}\n\n\t\tresult = append(result, locs[:end])\n\t\tlocs = locs[end:]\n\t}\n\n\treturn result\n",
 		Replace: "\tvar result []childLocs\n\temit := func(from, to int) int {\n\t\tresult = append(result, locs[from:to])\n\t\treturn to\n\t}\n\n\tstart := 0\n\tfor i := range locs {\n\t\tif i > start && locs[i].Parent != locs[start].Parent {\n\t\t\tstart = emit(start, i)\n\t\t}\n\t}\n\tif start < len(locs) {\n\t\temit(start, len(locs))\n\t}\n\n\treturn result\n"},
+
+	// ---- round 6: representation changes: comparator carried in a struct field / sort.Slice closure, generic list builder with a callback,
+	// window state in a struct, (value, found) results, named constant as sentinel
+	{Name: "updates-sorter-struct-with-order-field", File: "update.go",
+		Find:    "type updatesSortIndex Updates\n\n// SortByIndex will sort the updates by index in ascending order.\nfunc (us Updates) SortByIndex()           { sort.Sort(updatesSortIndex(us)) }\nfunc (us updatesSortIndex) Len() int      { return len(us) }\nfunc (us updatesSortIndex) Swap(i, j int) { us[i], us[j] = us[j], us[i] }\nfunc (us updatesSortIndex) Less(i, j int) bool {\n\tif us[i].Index != us[j].Index {\n\t\treturn us[i].Index < us[j].Index\n\t}\n\n\tif !us[i].Timestamp.Equal(us[j].Timestamp) {\n\t\treturn us[i].Timestamp.Before(us[j].Timestamp)\n\t}\n\n\treturn us[i].Version < us[j].Version\n}\n",
+		Replace: "// updatesSorter sorts updates by the order it carries.\ntype updatesSorter struct {\n\tlist  Updates\n\torder func(a, b *Update) bool\n}\n\nfunc (s updatesSorter) Len() int           { return len(s.list) }\nfunc (s updatesSorter) Swap(i, j int)      { s.list[i], s.list[j] = s.list[j], s.list[i] }\nfunc (s updatesSorter) Less(i, j int) bool { return s.order(&s.list[i], &s.list[j]) }\n\n// SortByIndex will sort the updates by index in ascending order.\nfunc (us Updates) SortByIndex() { sort.Sort(updatesSorter{list: us, order: byIndexTimeVersion}) }\n\nfunc byTime(a, b *Update) bool { return a.Timestamp.Before(b.Timestamp) }\n\nfunc byIndexTimeVersion(a, b *Update) bool {\n\tswitch {\n\tcase a.Index != b.Index:\n\t\treturn a.Index < b.Index\n\tcase a.Timestamp.Equal(b.Timestamp):\n\t\treturn a.Version < b.Version\n\t}\n\treturn byTime(a, b)\n}\n"},
+	{Name: "updates-sorter-field-holds-closure", File: "update.go",
+		Find:    "type updatesSortIndex Updates\n\n// SortByIndex will sort the updates by index in ascending order.\nfunc (us Updates) SortByIndex()           { sort.Sort(updatesSortIndex(us)) }\nfunc (us updatesSortIndex) Len() int      { return len(us) }\nfunc (us updatesSortIndex) Swap(i, j int) { us[i], us[j] = us[j], us[i] }\nfunc (us updatesSortIndex) Less(i, j int) bool {\n\tif us[i].Index != us[j].Index {\n\t\treturn us[i].Index < us[j].Index\n\t}\n\n\tif !us[i].Timestamp.Equal(us[j].Timestamp) {\n\t\treturn us[i].Timestamp.Before(us[j].Timestamp)\n\t}\n\n\treturn us[i].Version < us[j].Version\n}\n",
+		Replace: "type updatesSorter struct {\n\tlist  Updates\n\torder func(i, j int) bool\n}\n\nfunc (s *updatesSorter) Len() int           { return len(s.list) }\nfunc (s *updatesSorter) Swap(i, j int)      { s.list[i], s.list[j] = s.list[j], s.list[i] }\nfunc (s *updatesSorter) Less(i, j int) bool { return s.order(i, j) }\n\n// SortByIndex will sort the updates by index in ascending order.\nfunc (us Updates) SortByIndex() {\n\ts := &updatesSorter{list: us}\n\ts.order = func(i, j int) bool {\n\t\ta, b := s.list[i], s.list[j]\n\t\tif a.Index != b.Index {\n\t\t\treturn a.Index < b.Index\n\t\t}\n\t\tif a.Timestamp.Equal(b.Timestamp) {\n\t\t\treturn a.Version < b.Version\n\t\t}\n\t\treturn a.Timestamp.Before(b.Timestamp)\n\t}\n\tsort.Sort(s)\n}\n"},
+	{Name: "updates-sort-slice-closure", File: "update.go",
+		Find:    "type updatesSortIndex Updates\n\n// SortByIndex will sort the updates by index in ascending order.\nfunc (us Updates) SortByIndex()           { sort.Sort(updatesSortIndex(us)) }\nfunc (us updatesSortIndex) Len() int      { return len(us) }\nfunc (us updatesSortIndex) Swap(i, j int) { us[i], us[j] = us[j], us[i] }\nfunc (us updatesSortIndex) Less(i, j int) bool {\n\tif us[i].Index != us[j].Index {\n\t\treturn us[i].Index < us[j].Index\n\t}\n\n\tif !us[i].Timestamp.Equal(us[j].Timestamp) {\n\t\treturn us[i].Timestamp.Before(us[j].Timestamp)\n\t}\n\n\treturn us[i].Version < us[j].Version\n}\n",
+		Replace: "// SortByIndex will sort the updates by index in ascending order.\nfunc (us Updates) SortByIndex() {\n\tsort.Slice(us, func(i, j int) bool {\n\t\ta, b := &us[i], &us[j]\n\t\tif a.Index != b.Index {\n\t\t\treturn a.Index < b.Index\n\t\t}\n\t\tif !a.Timestamp.Equal(b.Timestamp) {\n\t\t\treturn a.Timestamp.Before(b.Timestamp)\n\t\t}\n\t\treturn a.Version < b.Version\n\t})\n}\n"},
+	{Name: "childlist-generic-builder-with-callback", File: "annotate/datasource.go",
+		Find:    "func relationsToChildList(relations osm.Relations) core.ChildList {\n\tif len(relations) == 0 {\n\t\treturn nil\n\t}\n\n\tlist := make(core.ChildList, len(relations))\n\trelations.SortByIDVersion()\n\tfor i, r := range relations {\n\t\tc := shared.FromRelation(r)\n\t\tc.VersionIndex = i\n\t\tlist[i] = c\n\t}\n\n\treturn list\n}\n",
+		Replace: "func relationsToChildList(relations osm.Relations) core.ChildList {\n\trelations.SortByIDVersion()\n\treturn buildChildren(len(relations), func(at int) *shared.Child { return shared.FromRelation(relations[at]) })\n}\n\n// buildChildren makes the list of n children, the i-th one produced by child(i).\nfunc buildChildren(n int, child func(at int) *shared.Child) core.ChildList {\n\tif n == 0 {\n\t\treturn nil\n\t}\n\n\tchildren := make(core.ChildList, n)\n\tfor at := 0; at < n; at++ {\n\t\tchildren[at] = child(at)\n\t\tchildren[at].VersionIndex = at\n\t}\n\n\treturn children\n}\n"},
+	{Name: "window-state-in-struct-found-result", File: "annotate/internal/core/compute.go",
+		Find:    "\t\t\tstart := 0\n\t\t\tif c != nil {\n\t\t\t\tstart = c.VersionIndex + 1\n\t\t\t} else {\n\t\t\t\t// current child is not defined, is next child\n\t\t\t\tnext := child.VersionBefore(timeThresholdParent(parent, 0))\n\t\t\t\tif next == nil {\n\t\t\t\t\tstart = 0\n\t\t\t\t} else {\n\t\t\t\t\tstart = next.VersionIndex + 1\n\t\t\t\t}\n\t\t\t}\n\n\t\t\tvar updates osm.Updates\n\t\t\tfor k := start; k < nextVersion; k++ {\n",
+		Replace: "\t\t\ttype span struct{ from, to int }\n\t\t\twindow := span{to: nextVersion}\n\t\t\tlookup := func() (*shared.Child, bool) {\n\t\t\t\tv := child.VersionBefore(timeThresholdParent(parent, 0))\n\t\t\t\treturn v, v != nil\n\t\t\t}\n\t\t\tif c != nil {\n\t\t\t\twindow.from = c.VersionIndex + 1\n\t\t\t} else if before, found := lookup(); found {\n\t\t\t\twindow.from = before.VersionIndex + 1\n\t\t\t}\n\n\t\t\tvar updates osm.Updates\n\t\t\tfor k := window.from; k < window.to; k++ {\n"},
+	{Name: "no-updates-sentinel-named-constant", File: "annotate/internal/core/compute.go",
+		Find:    "\t\treturn 0 // no updates.\n\t}\n\n\t// current child and next parent are far apart.",
+		Replace: "\t\tconst noUpdates = 0\n\t\treturn noUpdates\n\t}\n\n\t// current child and next parent are far apart."},
+
+	// ---- append-built <-> presized+indexed
+	{Name: "childlist-append-built", File: "annotate/datasource.go",
+		Find:    "\tlist := make(core.ChildList, len(nodes))\n\tnodes.SortByIDVersion()\n\tfor i, n := range nodes {\n\t\tc := shared.FromNode(n)\n\t\tc.VersionIndex = i\n\t\tlist[i] = c\n\t}\n",
+		Replace: "\tnodes.SortByIDVersion()\n\tlist := make(core.ChildList, 0, len(nodes))\n\tfor _, n := range nodes {\n\t\tc := shared.FromNode(n)\n\t\tc.VersionIndex = len(list)\n\t\tlist = append(list, c)\n\t}\n"},
+	{Name: "refs-append-built-counting-loop", File: "annotate/way.go",
+		Find:    "\tids := make(osm.FeatureIDs, len(w.Way.Nodes))\n\tannotated := make([]bool, len(w.Way.Nodes))\n\n\tfor i := range w.Way.Nodes {\n\t\tids[i] = w.Way.Nodes[i].FeatureID()\n\t\tannotated[i] = w.Way.Nodes[i].Version != 0\n\t}\n",
+		Replace: "\tvar (\n\t\tids       osm.FeatureIDs\n\t\tannotated = make([]bool, 0, len(w.Way.Nodes))\n\t)\n\n\tfor n := 0; n < len(w.Way.Nodes); n++ {\n\t\tnode := &w.Way.Nodes[n]\n\t\tids = append(ids, node.FeatureID())\n\t\tannotated = append(annotated, node.Version != 0)\n\t}\n"},
 }
